@@ -113,6 +113,13 @@ Theorem C03_water_names_refuted :
              names s' = ["O"; "H2"]%string.
 Proof. eexists. split; vm_compute; reflexivity. Qed.
 
+(* ---- set_termini's split at hidden chain ends is the identity on the residues ----------
+   for every chain and every marker predicate: the strands are non-empty and, concatenated in
+   order, are exactly the chain - no residue lost, none in two strands *)
+Theorem C03_split_hidden_ends : forall (A : Type) (mark : A -> bool) (rs : list A),
+  concat (split_at A mark [] rs) = rs /\ (forall s, In s (split_at A mark [] rs) -> s <> []).
+Proof. intros A mark rs. split; [exact (split_at_concat A mark rs [])|intros s; exact (split_at_nonempty A mark rs [] s)]. Qed.
+
 (* ---- the residue constructors (Amino / Nucleic / WAT __init__) -----------------------
    For ALL record-name lists and ALL alias tables: the constructed atom list has no
    duplicate, it is exactly the first occurrences of the CANONICAL names in file order
@@ -393,6 +400,7 @@ Print Assumptions C03_good_names_meaning.
 Print Assumptions C03_flip_names.
 Print Assumptions C03_alcoholic_names.
 Print Assumptions C03_water_names.
+Print Assumptions C03_split_hidden_ends.
 Print Assumptions C03_residue_init_nodup.
 Print Assumptions C03_residue_init_layers.
 Print Assumptions C03_layers_agree.
